@@ -81,6 +81,8 @@ def direct_input(e, labels) -> bool:
         return False
     if e[0] in ("slice", "sub", "chunk"):
         return direct_input(e[1], labels)
+    if e[0] == "iterunp":
+        return direct_input(e[2], labels)
     if e[0] == "call":
         if e[1][0] == "g" and e[1][1] in ("len",):
             return False
